@@ -146,7 +146,7 @@ Record dstate := mkD {
   d_best : list Z              (* bestColouring *)
 }.
 
-Definition seen_t := (list (list Z) * list Z)%type.
+Notation seen_t := (list (list Z) * list Z)%type (only parsing).
 
 (* uv[u].seenColours[c]++; if uv[u].seenColours[c] == 1 { uv[u].numberOfSeenColours++ } *)
 Definition seen_inc (sn : seen_t) (u : nat) (c : Z) : res seen_t :=
